@@ -127,7 +127,7 @@ theorem C06_linearizable (acts : List Act) (i : Nat) (o : Out)
   have h := (reachable_inv acts).thr i
   have hp := h.pc
   rw [hret] at hp
-  have hw := hp hk
+  have hw := hp.1 hk
   obtain ⟨a, b, c⟩ := h.wit o hw
   exact ⟨hw, a, b, c⟩
 
@@ -162,6 +162,27 @@ theorem C06_write_linearizable (acts : List Act) (i : Nat) (op : Op) (o : Out)
   have hop' : th.op = some op := hop
   rw [hop'] at c'
   cases op <;> simp only [notRead] at hm <;> first | exact ⟨c'.1, b, c'.2⟩ | cases hm
+
+/-- **GetKeys never invents a key** (what is left of its linearizability, see `C06_getkeys_not_atomic`):
+    under every schedule, every key a GetKeys returns was listed by the specification's GetKeys in
+    the state after the log prefix at its linearization point — a point between its call and its
+    return; it can only miss keys whose version was reclaimed while it was reading the content records. -/
+theorem C06_getkeys_subset (acts : List Act) (i t : Nat) (ks : List Key)
+    (hret : ((exec {} acts).thr i).pc = .ret (.keys ks)) (hop : ((exec {} acts).thr i).op = some (.keys t)) :
+    let σ := exec {} acts
+    let th := σ.thr i
+    ∃ W, Spec.getKeys (specAt σ th.witAt) t = .keys W ∧ th.invAt ≤ th.witAt ∧ th.witAt ≤ σ.lin.length ∧ ∀ k ∈ ks, k ∈ W := by
+  intro σ th
+  have h := (reachable_inv acts).thr i
+  have hp := h.pc
+  rw [hret] at hp
+  obtain ⟨W, hw, hsub⟩ := hp.2 ks rfl
+  obtain ⟨a, b, c⟩ := h.wit (.keys W) hw
+  have c' : WitSem σ i th (.keys W) := c
+  unfold WitSem at c'
+  have hop' : th.op = some (.keys t) := hop
+  rw [hop'] at c'
+  exact ⟨W, c'.symm, a, b, hsub⟩
 
 /-- **No deadlock.**  The only blocking primitive of the model is the horizon mutex.  In every
     reachable state a thread that is inside an operation can take a step, or the holder of the
